@@ -63,18 +63,14 @@ class Stack(Sequence[T]):
         if not self.items:
             return
 
-        removed = self.items[:]
-        self.items.clear()
-
         if self.lengths:
-            item_count, _ = self.lengths[-1]
-            # Mark all items as popped for the latest snapshot
+            item_count, remained_count = self.lengths[-1]
+            # Only items below the snapshot's low-water mark need to be remembered;
+            # anything above it was pushed after the snapshot was taken.
+            self.popped.extend(reversed(self.items[:remained_count]))
             self.lengths[-1] = (item_count, 0)
-            self.popped.extend(reversed(removed))
-        else:
-            # No snapshots to restore from; reset everything
-            self.popped.clear()
-            self.lengths.clear()
+
+        self.items.clear()
 
     @overload
     def __getitem__(self, index: int) -> T: ...
@@ -97,9 +93,26 @@ class Stack(Sequence[T]):
 
     def drop_snapshot(self) -> None:
         """Drop the last snapshot."""
+        if not self.lengths:
+            return
+
+        item_count, remained_count = self.lengths.pop()
+        segment = item_count - remained_count  # entries recorded for this snapshot
+        if not segment:
+            return
+
+        end = len(self.popped)
         if self.lengths:
-            item_count, remained_count = self.lengths.pop()
-            del self.popped[item_count - remained_count :]
+            outer_count, outer_remained = self.lengths[-1]
+            if remained_count < outer_remained:
+                # Items popped from below the enclosing snapshot's low-water mark
+                # are still needed to restore that snapshot: hand them over.
+                keep = outer_remained - remained_count
+                del self.popped[end - segment : end - keep]
+                self.lengths[-1] = (outer_count, remained_count)
+                return
+
+        del self.popped[end - segment :]
 
     def restore(self) -> None:
         """Rewind the stack to the most recent snapshot.
